@@ -136,6 +136,42 @@ def headerVerify (compact digest : Nat) (parentKnown : Bool) (pNumber hNumber pE
       | .nonContinuous => some .epochNonContinuous
       | .ok => some .ok
 
+/-! ## epoch statistics (`traits/src/epoch_provider.rs`) and the timestamp rule -/
+
+/-- the default method `EpochProvider::get_block_epoch`: `some none` = `NonTailBlock`,
+`some (some (uncles, duration_ms))` = `TailBlock`, `none` = panic (u64 arithmetic is checked).
+`tuH`/`tsH`: `total_uncles_count` / timestamp of `header`; `tuP`/`tsP`: those of the last block of the
+previous epoch (block 0 for the genesis epoch). -/
+def getBlockEpoch (hdrNumber start len tuH tuP tsH tsP : Nat) : Option (Option (Nat × Nat)) := do
+  let stop ← chk64 (start + len)
+  let tail ← subChk stop 1
+  if hdrNumber ≠ tail then some none
+  else do
+    let uncles ← subChk tuH tuP
+    let dur ← subChk tsH tsP
+    some (some (uncles, dur))
+
+def insertSorted (x : Nat) : List Nat → List Nat
+  | [] => [x]
+  | y :: ys => if x ≤ y then x :: y :: ys else y :: insertSorted x ys
+
+def sortNat (l : List Nat) : List Nat := l.foldr insertSorted []
+
+/-- `HeaderFieldsProvider::block_median_time`: `prev` = timestamps of the parent and its ancestors,
+most recent first, at most `median_block_count` of them and not beyond block 0; sorted, element
+`len >> 1`. -/
+def medianTime (prev : List Nat) : Nat := (sortNat prev).getD (prev.length / 2) 0
+
+/-- lower bound of `TimestampVerifier` (the upper bound `now + 15 s` concerns the wall clock) -/
+def timestampOk (t : Nat) (prev : List Nat) : Bool := decide (t > medianTime prev)
+
+/-- every non-genesis block of a chain (timestamps oldest first) passes the median rule with
+`m = median_time_block_count`; `revPrev`: the ancestors, most recent first -/
+def chainTimestampsOk (m : Nat) : List Nat → List Nat → Bool
+  | _, [] => true
+  | revPrev, t :: rest =>
+    (revPrev.isEmpty || timestampOk t (revPrev.take m)) && chainTimestampsOk m (t :: revPrev) rest
+
 /-! ## `EpochExt` rewards -/
 
 structure EpochExt where
